@@ -45,23 +45,6 @@ def constCol (v : KVal) (n : Nat) : Col :=
 
 /-! ### Reason tags: which forced hypothesis of which kernel theorem fails on these inputs -/
 
-def rawNoFaultB (op : ArithOp) (w : IW) (a b : Arr Int) : Bool :=
-  (List.zip a b).all fun p => (op.raw w p.1.raw p.2.raw).isOk
-
-/-- A both-valid row on which the raw computation faults (a genuine overflow / zero divisor),
-as opposed to a fault on a row that is NULL in SQL terms. -/
-def validRowFaultB (op : ArithOp) (w : IW) (a b : Arr Int) : Bool :=
-  (List.zip a b).any fun p => p.1.valid && p.2.valid && !(op.raw w p.1.raw p.2.raw).isOk
-
-def arithTags (op : ArithOp) (w : IW) (a b : Arr Int) : List String :=
-  let b' := if op.safens then safenDividend b else b
-  if a.length ≠ b.length then [] else
-  if rawNoFaultB op w a b' then []
-  else
-    let nm := match op with | .add => "add" | .sub => "sub" | .mul => "mul" | .div => "div" | .rem => "rem"
-    if validRowFaultB op w a b' then ["arith:overflow-panics:" ++ nm]
-    else ["arith:null-slot-faults:" ++ nm]
-
 /-- `Evaluator::eval`: result and the reason tags collected at the nodes evaluated. A failing
 node stops the evaluation (`?`). -/
 def evalK (chunk : List Col) (n : Nat) : KExpr → KOut Col × List String
@@ -72,9 +55,7 @@ def evalK (chunk : List Col) (n : Nat) : KExpr → KOut Col × List String
     | (.ok ca, ta) =>
       match evalK chunk n b with
       | (.ok cb, tb) =>
-        let tg := match ca, cb with
-          | .int wa x, .int wb y => arithTags op (wa.max wb) x y
-          | _, _ => if ca.ty == .null || cb.ty == .null then ["kernel:null-typed-operand"] else []
+        let tg := if (ca.ty == .null || cb.ty == .null) then ["kernel:null-typed-operand"] else []
         (Col.arith op ca cb, ta ++ tb ++ tg)
       | (r, tb) => (r, ta ++ tb)
     | (r, ta) => (r, ta)
@@ -112,12 +93,7 @@ def evalK (chunk : List Col) (n : Nat) : KExpr → KOut Col × List String
   | .neg a =>
     match evalK chunk n a with
     | (.ok ca, ta) =>
-      let tg := match ca with
-        | .int w x => if x.all (fun s => (negW w s.raw).isOk) then []
-            else if x.any (fun s => s.valid && !(negW w s.raw).isOk) then ["arith:overflow-panics:neg"]
-            else ["arith:null-slot-faults:neg"]
-        | .null _ => ["kernel:null-typed-operand"]
-        | _ => []
+      let tg := if ca.ty == .null then ["kernel:null-typed-operand"] else []
       (Col.neg ca, ta ++ tg)
     | (r, ta) => (r, ta)
   | .isnull a =>
